@@ -3,6 +3,7 @@ CONSTANTS
   Count = 2
   Kind = "delete"
   MaxRolls = 4
+  MaxWipes = 1
 INIT HInit
 NEXT HNext
 INVARIANTS WindowLaw ActiveGone OutsideUntouched RemoveOnly NoDup Emit
